@@ -72,6 +72,12 @@ func drawMod(r *rand.Rand) mod {
 		for i := range x {
 			x[i] = byte(r.UintN(256))
 		}
+		switch r.IntN(6) {
+		case 0:
+			x = dhcpv4.TransactionID{} // a transaction id like any other
+		case 1:
+			x = dhcpv4.TransactionID{0xff, 0xff, 0xff, 0xff}
+		}
 		return mod{"WithTransactionID", dhcpv4.WithTransactionID(x), func(m *ref4.P4) { m.Xid = x }, fmt.Sprintf("xid=%x", x)}
 	case 1:
 		ip, w := ipv(r)
@@ -232,6 +238,14 @@ func ip4(ip net.IP) [4]byte {
 	copy(w[:], ip.To4())
 	return w
 }
+
+type held struct {
+	builder string
+	p       *dhcpv4.DHCPv4
+	canon   string
+}
+
+var heldResults []held
 
 func runCase(r *mon.Rec, idx int) {
 	rng := r.Rand("c15", idx)
@@ -415,6 +429,23 @@ func runCase(r *mon.Rec, idx int) {
 	if exp.Canon() != rpj.Canon() {
 		r.Violate("C15:"+b.name+":modifiers-do-not-prevail", fmt.Sprintf("%s with modifiers %v (list with %d spare slots, handed to %s first: %v): expected %s, got %s", b.name, names, spare, other.name, reuse, exp.Canon(), rpj.Canon()), rp)
 		return
+	}
+	// packets built earlier stay what they were while later ones are built (the caller keeps them: an offer it is about
+	// to answer, a discover it will retransmit)
+	for _, h := range heldResults {
+		if g, ok := proj.P4(h.p); !ok || g.Canon() != h.canon {
+			now := "(no longer an IPv4 packet)"
+			if ok {
+				now = g.Canon()
+			}
+			r.Violate("C15:"+h.builder+":earlier-result-changed", fmt.Sprintf("a packet built earlier by %s changed while %s built another one: %s -> %s", h.builder, b.name, trunc(h.canon), trunc(now)), rp)
+			heldResults = nil
+			return
+		}
+	}
+	heldResults = append(heldResults, held{b.name, res, rpj.Canon()}, held{b.name, base, bp.Canon()})
+	if len(heldResults) > 8 {
+		heldResults = heldResults[len(heldResults)-8:]
 	}
 	var ms []string
 	for _, m := range mods {
